@@ -51,7 +51,7 @@ theorem skip_refine (buf : Buf) : ∀ f i,
         simp only [hb, Option.map_some] at hne ⊢
         by_cases hnum : (c == 45 || isDigit c) = true
         · refine ⟨1, ?_⟩
-          simp only [Spec.value, hb, hnum, ite_true]
+          simp only [Spec.value, hb, hnum, ite_true, Spec.numberS_false]
           have hc : buf[skipWs buf i] = 45 ∨ isDigit buf[skipWs buf i] = true := by
             rw [hv]; simpa using hnum
           have := doSkipNumber_refines buf (skipWs buf i) hp hc
